@@ -69,6 +69,31 @@ def random_script(rng, kind, maxlen=8):
     return out
 
 
+def kwify(script, phase=0):
+    """the same script with configuration calls that immediately precede a Step / Solve handed over as keywords of
+    that call (EvaluationMonitor= / StepMonitor= / penalty= / constraints=), every `phase`-th opportunity skipped;
+    returns None if the script offers no opportunity"""
+    def mergeable(op):
+        return (op[0] == "evalmon" and not op[1]) or op[0] == "stepmon" or (op[0] == "cfg" and op[1] in ("pen", "cons"))
+    def slot(op):
+        return op[1] if op[0] == "cfg" else op[0]
+    out, i, n, changed = [], 0, len(script), False
+    while i < n:
+        j = i
+        seen = set()
+        while j < n and mergeable(script[j]) and slot(script[j]) not in seen:
+            seen.add(slot(script[j]))
+            j += 1
+        if j > i and j < n and script[j][0] in ("step", "solve") and len(script[j]) == 1 and (phase == 0 or (len(out) + phase) % 3):
+            out.append([script[j][0], [list(o) for o in script[i:j]]])
+            changed = True
+            i = j + 1
+        else:
+            out.append(script[i])
+            i += 1
+    return out if changed else None
+
+
 def run_script(kind, script, seed=0, dim=2, npop=4, cost=None, scripted_term=False):
     """execute a script on a real solver; returns the recorded event list (never raises for mystic errors)"""
     rec = Recorder(kind, dim=dim, npop=npop, seed=seed, cost=cost, scripted_term=scripted_term)
@@ -78,9 +103,9 @@ def run_script(kind, script, seed=0, dim=2, npop=4, cost=None, scripted_term=Fal
             try:
                 name = op[0]
                 if name == "step":
-                    rec.step()
+                    rec.step(kw=op[1] if len(op) > 1 else None)
                 elif name == "solve":
-                    rec.solve()
+                    rec.solve(kw=op[1] if len(op) > 1 else None)
                 elif name == "limits":
                     rec.limits(op[1], op[2], op[3])
                 elif name == "cfg":
